@@ -19,9 +19,9 @@ def judge(name, r):
         if o["exempt"] or o["nul"]:
             continue
         kind = "error" if o["err"] is True else ("success" if o["err"] is False else "return")
-        out.append(dict(key="C03:unterminated:%s:%s:ret=%s%s:%s" % (base, kind, o["ret"], ":dirty" if o["dirty"] else "", o["msg"]), rule="N-nul-in-dest",
+        out.append(dict(key="C03:unterminated:%s:%s:ret=%s%s:%s%s" % (base, kind, o["ret"], ":dirty" if o["dirty"] else "", o["msg"], (":via=" + o["via"]) if o.get("via") else ""), rule="N-nul-in-dest",
                         where="%s:%s" % (r["file"], o["line"]),
-                        text="%s: a %s return (%s) is reached with no terminator known in dest%s" % (base, kind, o["ret"], " after this call wrote into it" if o["dirty"] else " (dest is left as the caller passed it)"),
+                        text="%s: a %s return (%s) is reached with no terminator known in dest%s" % (base, kind, o["ret"], (" after this call wrote into it" if o["dirty"] else " (dest is left as the caller passed it)") + ((" [dest was handed to " + o["via"] + " on the way]") if o.get("via") else "")),
                         path=o["path"]))
     return out
 
